@@ -84,6 +84,8 @@ class Engine:
         self.drv = None
         self.model_errs = 0
         self.impl_errs = 0
+        self.vm_cases = []
+        self.vm_seen = {}
 
     # ---- single cases ----
     def run_corr(self, name, args, record=True):
@@ -92,6 +94,8 @@ class Engine:
             model_v = self.drv.call(name, *args)
         except RuntimeError as e:
             model_v = ["driver-failure", str(e)[:200].encode()]
+        if record and self.drv is not None and not (isinstance(model_v, list) and model_v[:1] == ["driver-failure"]):
+            self._selfcheck_offer(name, args, model_v)
         if record:
             self.evaluations += 1
             self.corr_cases += 1
@@ -140,6 +144,80 @@ class Engine:
         if kind == "corr":
             return self.run_corr(name, args, record)
         return self.run_prop(name, args, record)
+
+    # ---- extraction self-check: the same cases evaluated by vm_compute inside Coq ----
+    def _selfcheck_offer(self, name, args, model_v):
+        skip = getattr(self.mod, "VM_SKIP", ())
+        if skip == "*" or name in skip or self.drv is None:
+            return
+        orc = list(self.drv.last_oracle)
+        size = len(sexp.enc(args)) + sum(len(r) * 2 + sum(len(a) * 2 for a in ar) for _, ar, r in orc)
+        if size > 3000 or len(orc) > 24:
+            return
+        per_fn = self.vm_seen.get(name, 0)
+        limit = 6 if self.tier == "quick" else 40
+        if per_fn >= limit:
+            # reservoir-free thinning: keep early and a few later ones
+            return
+        self.vm_seen[name] = per_fn + 1
+        self.vm_cases.append((name, args, model_v, orc))
+
+    def run_selfcheck(self):
+        """Returns (n_cases, failures:list[str], note)."""
+        if not self.vm_cases:
+            return 0, [], "no cases sampled"
+
+        def cz(n):
+            return f"({n})%Z"
+
+        def cb(b):
+            return "[" + "; ".join(f"{x}%Z" for x in b) + "]"
+
+        def cv(v):
+            if v is ERR:
+                return "VErr"
+            if isinstance(v, int):
+                return f"(VI {cz(v)})"
+            if isinstance(v, bytes):
+                return f"(VB {cb(v)})"
+            return "(VL [" + "; ".join(cv(x) for x in v) + "])"
+
+        d = os.path.join(build.BUILD, self.pid)
+        os.makedirs(d, exist_ok=True)
+        lines = ["From V Require Import Base.Prelude Base.Disp Dispatch.D%s." % self.pid,
+                 "Definition one (tbl : list (Z * list (list Z) * list Z)) (fn : list Z) (args : list val) (expect : val) : bool :=",
+                 "  val_eqb (D%s.dispatch (table_oracle tbl) fn args) expect." % self.pid]
+        names = []
+        for k, (name, args, model_v, orc) in enumerate(self.vm_cases):
+            tbl = "[" + "; ".join(f"({cz(a)}, [{'; '.join(cb(x) for x in ar)}], {cb(r)})" for a, ar, r in orc) + "]"
+            fn = cb(name.encode())
+            al = "[" + "; ".join(cv(x) for x in args) + "]"
+            lines.append(f"Definition c{k} : bool := one {tbl} {fn} {al} {cv(model_v)}.")
+            names.append(f"c{k}")
+        lines.append("Definition all_cases : list bool := [" + "; ".join(names) + "].")
+        lines.append("Eval vm_compute in (map (fun b : bool => if b then 1%nat else 0%nat) all_cases).")
+        path = os.path.join(d, "selfcheck.v")
+        open(path, "w").write("\n".join(lines) + "\n")
+        try:
+            rc, out, dt = build.run(["coqc", "-Q", build.COQ, "V", path], cwd=d,
+                                    timeout=240 if self.tier == "quick" else 1200)
+        except Exception as e:  # timeout
+            return len(self.vm_cases), [], f"skipped: coqc did not finish ({type(e).__name__})"
+        if rc != 0:
+            if "inconsistent assumptions" in out:
+                return len(self.vm_cases), [], "skipped: stale .vo during concurrent rebuild"
+            return len(self.vm_cases), ["selfcheck.v did not compile: " + out[-400:]], "error"
+        import re as _re
+        m = _re.search(r"=\s*\[([^\]]*)\]", out)
+        if not m:
+            return len(self.vm_cases), ["selfcheck output not understood: " + out[-300:]], "error"
+        bits = [x.strip() for x in m.group(1).replace("\n", " ").split(";") if x.strip()]
+        fails = []
+        for k, b in enumerate(bits):
+            if not b.startswith("1") and k < len(self.vm_cases):
+                name, args, model_v, _ = self.vm_cases[k]
+                fails.append(f"vm_compute disagrees with the extracted driver on {name} {sexp.short(args, 200)}")
+        return len(self.vm_cases), fails, f"{len(bits)} cases evaluated inside Coq in {dt:.1f}s"
 
     # ---- shrinking of correspondence disagreements ----
     def shrink(self, v, budget=150):
@@ -280,14 +358,22 @@ class Engine:
             # 3. generated cases
             ctx = Ctx(pid, self.tier, self.seed)
             budget_s = getattr(self.mod, "BUDGET_S", {"quick": 600, "thorough": 3000})[self.tier]
+            t_gen = time.time()          # the case budget starts after the builds
             for case in self.mod.generate(ctx):
                 handle(self.run_case(case))
                 if len(self.corr_fail) + len(self.prop_fail) > 50:
                     break
-                if time.time() - self.t0 > budget_s:
+                if time.time() - t_gen > budget_s:
                     ctx.label("time-budget-reached")
                     break
             self.labels = ctx.labels
+            # 3b. extraction self-check (same cases by vm_compute inside Coq)
+            try:
+                self.vm_n, vm_fail, self.vm_note = self.run_selfcheck()
+            except Exception as e:  # noqa
+                self.vm_n, vm_fail, self.vm_note = 0, [], "skipped: " + repr(e)[:200]
+            for msg in vm_fail[:5]:
+                proof_fail.append("extraction self-check: " + msg)
             # 4. escalation: correspondence or proof broke but no failing input yet
             if (self.corr_fail or proof_fail) and not self.prop_fail:
                 ctx2 = Ctx(pid, self.tier, self.seed, scale=8.0)
@@ -396,6 +482,7 @@ class Engine:
                 "model_calls": self.drv.calls if self.drv else 0,
                 "hash_oracle_calls": self.drv.oracle_calls if self.drv else 0,
                 "samples": self.samples,
+                "extraction_selfcheck": {"cases": getattr(self, "vm_n", 0), "note": getattr(self, "vm_note", "")},
                 "known_findings_seen": known_hits,
                 "stale_known_findings": stale,
                 "exhaustive": False,
